@@ -156,6 +156,7 @@ func main() {
 	concrete := flag.String("concrete", "", "JSON file with concrete inputs (concrete mode)")
 	params := flag.String("params", "", "k=v,k=v harness parameters")
 	cpuprof := flag.String("cpuprofile", "", "cpu profile")
+	dump := flag.String("dump", "", "dump the SSA of this dns package function and exit")
 	flag.Parse()
 	if *cpuprof != "" {
 		f, _ := os.Create(*cpuprof)
@@ -170,6 +171,12 @@ func main() {
 		os.Exit(2)
 	}
 	fmt.Fprintf(os.Stderr, "loaded+built SSA in %.1fs\n", time.Since(t0).Seconds())
+	if *dump != "" {
+		if f := P.dns.Func(*dump); f != nil {
+			f.WriteTo(os.Stderr)
+		}
+		os.Exit(0)
+	}
 	setParams(*params)
 	pool := &WorkerPool{P: P, workers: map[int]*Interp{}, kind: *solver, timeout: *tmo}
 	defer pool.Close()
